@@ -86,6 +86,54 @@ func leafSorts(t types.Type) []string {
 
 func nLeaves(t types.Type) int { return len(leafSorts(t)) }
 
+// leafRanges: per leaf, the value range every element of that leaf has
+// ("" = unbounded), and how many extra array levels sit above the ranged value.
+type leafRange struct {
+	lo, hi string
+	extra  int
+}
+
+func leafRanges(t types.Type) []leafRange {
+	switch u := under(t).(type) {
+	case *types.Basic:
+		switch {
+		case u.Info()&types.IsString != 0:
+			return []leafRange{{"0", "255", 1}, {"0", maxIntS, 0}, {"0", maxIntS, 0}}
+		case u.Info()&types.IsInteger != 0:
+			lo, hi, ok := intRange(t)
+			if ok {
+				return []leafRange{{lo, hi, 0}}
+			}
+		}
+		return []leafRange{{}}
+	case *types.Pointer, *types.Map, *types.Chan, *types.Signature, *types.Interface:
+		return []leafRange{{"0", "", 0}}
+	case *types.Slice:
+		return []leafRange{{"0", "", 0}, {"0", maxIntS, 0}, {"0", maxIntS, 0}, {"0", maxIntS, 0}}
+	case *types.Struct:
+		var out []leafRange
+		for i := 0; i < u.NumFields(); i++ {
+			out = append(out, leafRanges(u.Field(i).Type())...)
+		}
+		return out
+	case *types.Array:
+		var out []leafRange
+		for _, r := range leafRanges(u.Elem()) {
+			r.extra++
+			out = append(out, r)
+		}
+		return out
+	case *types.Tuple:
+		var out []leafRange
+		for i := 0; i < u.Len(); i++ {
+			out = append(out, leafRanges(u.At(i).Type())...)
+		}
+		return out
+	}
+	n := nLeaves(t)
+	return make([]leafRange, n)
+}
+
 // fieldRange returns the leaf range [lo,hi) of field i of struct type t.
 func fieldRange(t types.Type, i int) (int, int) {
 	st := under(t).(*types.Struct)
@@ -300,10 +348,21 @@ func sliceElem(t types.Type) types.Type { return under(t).(*types.Slice).Elem() 
 func ptrElem(t types.Type) types.Type   { return under(t).(*types.Pointer).Elem() }
 
 // typeKey is a stable short name of a type used in heap names.
+var typeKeyReg = map[string]types.Type{}
+
 func typeKey(t types.Type) string {
+	k := typeKey0(t)
+	if _, ok := typeKeyReg[k]; !ok {
+		typeKeyReg[k] = t
+	}
+	return k
+}
+
+func typeKey0(t types.Type) string {
 	s := types.TypeString(t, func(p *types.Package) string { return p.Name() })
 	s = byteRe.ReplaceAllString(s, "uint8")
 	s = runeRe.ReplaceAllString(s, "int32")
+	defer func() {}()
 	r := strings.NewReplacer("*", "P", "[]", "S", "[", "A", "]", "_", ".", "_", " ", "", "{", "_", "}", "_", ";", "_", "(", "_", ")", "_", ",", "_", "/", "_")
 	return r.Replace(s)
 }
